@@ -57,6 +57,55 @@ def restore_rule(ctx: Ctx, rule: str) -> None:
         ctx.note(f'{rule}: no resample is handed to the engine any more')
 
 
+def _roles(ctx: Ctx) -> None:
+    """which formula of the dictionary is the log likelihood and which is the weight"""
+    from ..core import const_value
+    from ..pattern import find, has
+
+    prog = ctx.prog
+    ctx.rule('C04.R5', 'formula roles: when the formulas come in a dictionary the log likelihood is the entry found under one of log_like_valid_names and the weight the entry '
+             'found under one of weight_valid_names (all documented spellings, two disjoint lists); get_expression returns the entry of the keyword it found')
+    B = prog.cls('biogeme', 'BIOGEME')
+    init = B.methods['__init__']
+    lists = {}
+    for a in walk_no_nested(init.node):
+        if isinstance(a, ast.Assign) and unparse(a.targets[0]) in ('self.log_like_valid_names', 'self.weight_valid_names'):
+            try:
+                lists[unparse(a.targets[0])] = [const_value(e) for e in a.value.elts]
+            except Exception:
+                lists[unparse(a.targets[0])] = None
+    ll, ww = lists.get('self.log_like_valid_names'), lists.get('self.weight_valid_names')
+    ok = ll is not None and ww is not None and set(ll) == {'log_like', 'loglike'} and set(ww) == {'weight', 'weights'}
+    ctx.add('C04.R5', 'BIOGEME.__init__:names', ok, init, f'log likelihood: {ll}; weight: {ww}' if ok else f'documented spellings changed or overlap: log likelihood {ll}, weight {ww}', f'{ll}/{ww}')
+    for attr, names in (('self.log_like', 'self.log_like_valid_names'), ('self.weight', 'self.weight_valid_names')):
+        calls = [a for a in walk_no_nested(init.node) if isinstance(a, ast.Assign) and unparse(a.targets[0]) == attr and isinstance(a.value, ast.Call) and call_name(a.value) == 'get_expression']
+        okc = len(calls) == 1
+        det = ''
+        if okc:
+            bound = prog.bind_call(init, calls[0].value) or {}
+            det = {k: unparse(v) for k, v in bound.items()}
+            okc = det == {'dict_of_formulas': 'formulas', 'valid_keywords': names}
+        ctx.add('C04.R5', f'BIOGEME.__init__:{attr}', okc, (init.file, calls[0].lineno if calls else init.line),
+                f'{attr} = entry of the dictionary under one of {names}' if okc else f'{attr} is looked up with {det}: a formula given under a documented spelling is ignored', str(det))
+    ge = prog.func('dict_of_formulas', 'get_expression')
+    ok = has(ge.node, """
+_FOUND = None
+for _N in valid_keywords:
+    _E = dict_of_formulas.get(_N)
+    if _E is not None:
+        if _FOUND is not None:
+            ___
+            raise BiogemeError(__MSG)
+        _FOUND = _N
+""") and has(ge.node, """
+if _FOUND is None:
+    ___
+    return None
+return dict_of_formulas[_FOUND]
+""")
+    ctx.add('C04.R5', 'get_expression', ok, ge, 'every valid keyword is tried, two spellings at once are refused, the entry of the keyword found is returned' if ok else 'get_expression no longer returns the entry of the (single) valid keyword present', 'get_expression')
+
+
 def run(ctx: Ctx) -> None:
     prog = ctx.prog
     ctx.rule('C04.R1', 'engine-call contract (ECC) for pyBiogeme: every argument of every call on the engine object has the role the engine reads in that slot '
@@ -114,6 +163,7 @@ def run(ctx: Ctx) -> None:
     ctx.add('C04.R3', 'Database.get_sample_size', ok, f, 'sample size = number of individuals for panel data, number of rows otherwise' if ok else 'get_sample_size changed', 'sample_size')
     restore_rule(ctx, 'C04.R4')
     ctx.floor('C04.R3', 6)
+    _roles(ctx)
 
 
 _B = 'src/biogeme/biogeme.py'
